@@ -165,6 +165,36 @@ def run_shard(spec):
         if ok != (0 < v <= ref.MAX_SASHIMI):
             viol.append(_viol("amount-limit-differs-from-max-supply", "validate_sashimi_range(%d) accepts=%s" % (v, ok),
                               {"kind": "edges"}))
+    # the limit as it applies to amounts that arrive as bytes: 8-byte fields with the top bit set are (unsigned) far above
+    # the maximum supply and must be refused wherever an amount is judged -- in an ordinary output and in a reward
+    import immutables
+    import skepticoin.datatypes as dt
+    from skepticoin.coinstate import CoinState
+    from skv import bridge
+    key = b"\x05" * 64
+    for h in (1, 2, 1_050_000, 31_499_999):
+        for k in (1, 7, ref.subsidy(h), ref.MAX_SASHIMI):
+            n += 1
+            cb = ref.RTx([(ref.ZERO32, 0, (ref.SIG_CB, h, b""))], [(ref.subsidy(h) + k, key), ((1 << 64) - k, key)])
+            try:
+                real_cb = dt.Transaction.deserialize(cb.enc())
+                vals = [o.value for o in real_cb.outputs]
+            except Exception:
+                continue            # refusing to decode is a refusal
+            prev = dt.Block(dt.BlockHeader(dt.BlockSummary(h - 1, b"\x22" * 32, b"\x00" * 32, 5, b"\xff" * 32, 0),
+                                           dt.PowEvidence(b"\x00" * 32, b"\x00" * 32, b"\x00" * 32)), [])
+            at = b"\x11" * 32
+            blk = dt.Block(dt.BlockHeader(dt.BlockSummary(h, at, b"\x00" * 32, 9, b"\xff" * 32, 0),
+                                          dt.PowEvidence(b"\x00" * 32, b"\x00" * 32, b"\x00" * 32)), [real_cb])
+            cs = CoinState(immutables.Map({at: prev}), immutables.Map({at: immutables.Map()}), immutables.Map(), immutables.Map(), at)
+            try:
+                consensus.validate_coinbase_transaction_in_coinstate(real_cb, blk, cs)
+                viol.append(_viol("decoded-amount-beyond-limit-accepted-in-reward", "height %d: reward with 8-byte amounts %s (decoded by "
+                                  "the node as %s) passes the reward check" % (h, [ref.subsidy(h) + k, (1 << 64) - k], vals), {"kind": "edges"}))
+            except Exception:
+                pass
+            if any(v < 0 for v in vals):
+                viol.append(_viol("amount-decoded-as-negative", "8-byte amount %d decodes to %s" % ((1 << 64) - k, vals), {"kind": "edges"}))
     # docs/params.md
     import os
     doc = open(os.path.join(env.REPO, "docs", "params.md")).read()
